@@ -17,7 +17,7 @@ TRUSTED = ["the broker's own publishes on stats/<node>/ (monitoring sink 'self',
            "cluster-wide presence (survey of other brokers) is empty: single broker"]
 ASSUMPTIONS = ["share groups are excluded (membership of a lookup is random by design)", "checked with the default (emitter) matcher; under the mqtt matcher notifications are matched with the same-depth rule (documented in DESIGN.md)"]
 CLAIM = {
-    "text": "Lean 4 theorems over the broker model for every request history and authorizer: a presence status request lists exactly the live connections in the lookup of the channel with their usernames (status_exact); a watcher of a channel receives exactly one 'subscribe' per transition of a (connection, filter at or below the channel) pair into the subscription set and one 'unsubscribe' per transition out (unsubscribe or close), none after cancelling (changes_exact). Tied to /repo by the differential broker run.",
+    "text": "Lean 4 theorems over the broker model for every request history and authorizer: a presence status request lists exactly the live connections in the lookup of the channel with their usernames (status_exact); a watcher of a channel receives exactly one 'subscribe' per transition of a (connection, filter at or below the channel) pair into the subscription set and one 'unsubscribe' per transition out (unsubscribe or close), none after cancelling (changes_exact). Tied to /repo by the differential broker run. At history level (status_history, notify_history): after any well-formed history the answer to a status request and the receivers of a notification are computed from the specification set A of acknowledged subscriptions alone.",
     "note": "Trusted: Lean kernel; harness (quiescence polling of the presence queue).",
     "technique": "Lean 4 proof (presence as a function of the subscription set of the broker model) + differential correspondence check model vs. real broker",
 }
